@@ -101,7 +101,7 @@ def run_obligation(scratch, exe, test, tier, jobs, timeout_s, log, replay=None, 
             os.remove(p)
     extra = {"VERIF_OUT": out_file, "VERIF_TIER": tier, "VERIF_JOBS": str(jobs),
              "VERIF_BIN_DIR": os.path.join(scratch.base, "bin"), "VERIF_TMP": os.path.join(scratch.base, "tmp"),
-             "VERIF_SEED": os.environ.get("VERIF_SEED", "0")}
+             "VERIF_SEED": os.environ.get("VERIF_SEED", "0"), "VERIF_REPO_ROOT": scratch.path}
     os.makedirs(extra["VERIF_TMP"], exist_ok=True)
     if progress:
         extra["VERIF_PROGRESS"] = prog
